@@ -20,14 +20,15 @@ exactly at their deadline). Every engine path is a path of `Model.Batch.step cod
 Lines:
     cfg batch <maxWait> <batchSize>           |  cfg func <maxWait> <gated:0|1>
     step <action> [arg] obs <cons> <nres> <lastres> <pulled> <spend> <sclosed> <cret> <fpend>
-actions: rel <v> | eof | err | next live | next dead | cancel | sleep <d> | fullret | fullopen | close
+actions: rel <v> | eof | err [canceled|wrapcanceled|deadline|wrapdeadline] | next live | next dead | cancel | sleep <d> | fullret | fullopen | close
 -/
 namespace Juniper.Driver.C11
 open Juniper.Driver Juniper.Model.Batch
 
 structure EState where
   s : State
-  q : List SrcEv := []
+  /-- released source events: `.srcRet ev` or `.srcCancelErr wrapped` labels, in order -/
+  q : List Label := []
   tokens : Nat := 0
   gated : Bool := false
   deriving DecidableEq
@@ -53,7 +54,7 @@ def moves (cfg : Cfg) (e : EState) : List EState :=
         { e with s := s', tokens := if e.gated then e.tokens - 1 else e.tokens }
     | _ => (step code cfg e.s l).map fun s' => { e with s := s' }
   let src := match e.q with
-    | ev :: rest => ((step code cfg e.s (.srcRet ev)).map fun s' => { e with s := s', q := rest }).toList
+    | l :: rest => ((step code cfg e.s l).map fun s' => { e with s := s', q := rest }).toList
     | [] => []
   base ++ src
 
@@ -116,9 +117,15 @@ def dedupS (l : List String) : List String :=
   l.foldl (fun acc e => if acc.contains e then acc else acc ++ [e]) []
 
 def doAction (cfg : Cfg) (set : List EState) : List String → Option (List EState)
-  | ["rel", v] => some (set.map fun e => { e with q := e.q ++ [.item (natOr v)] })
-  | ["eof"] => some (set.map fun e => { e with q := e.q ++ [.eof] })
-  | ["err"] => some (set.map fun e => { e with q := e.q ++ [.err] })
+  | ["rel", v] => some (set.map fun e => { e with q := e.q ++ [.srcRet (.item (natOr v))] })
+  | ["eof"] => some (set.map fun e => { e with q := e.q ++ [.srcRet .eof] })
+  | ["err"] => some (set.map fun e => { e with q := e.q ++ [.srcRet .err] })
+  -- the source fails of its own accord with context.Canceled / an error wrapping it
+  | ["err", "canceled"] => some (set.map fun e => { e with q := e.q ++ [.srcCancelErr false] })
+  | ["err", "wrapcanceled"] => some (set.map fun e => { e with q := e.q ++ [.srcCancelErr true] })
+  -- context.DeadlineExceeded (bare / wrapped) is an ordinary error for the producer's test
+  | ["err", "deadline"] => some (set.map fun e => { e with q := e.q ++ [.srcRet .err] })
+  | ["err", "wrapdeadline"] => some (set.map fun e => { e with q := e.q ++ [.srcRet .err] })
   | ["next", "live"] => some (applyLabel cfg (.nextCall true) set)
   | ["next", "dead"] => some (applyLabel cfg (.nextCall false) set)
   | ["cancel"] => some (applyLabel cfg .ctxExpire set)
